@@ -101,7 +101,18 @@ pub fn evaluate_crash_images(e: &mut Exec) {
     let mut writer_step_count = 0u64;
     for k in boundaries {
         let allowed = e.allowed_at(k);
-        for mode in [TailMode::Minimal, TailMode::Maximal, TailMode::Random(derive(e.case.seed, &[k]))] {
+        // quick tier: the seeded-random outcome at every third boundary (offset by the run seed)
+        let random_here = thorough_writer_step || (k + e.case.seed) % 3 == 0;
+        for mode in [
+            TailMode::Minimal,
+            TailMode::Maximal,
+            TailMode::RenamesOnly,
+            TailMode::Random(derive(e.case.seed, &[k])),
+            TailMode::Subset(derive(e.case.seed, &[k, 1])),
+        ] {
+            if !random_here && matches!(mode, TailMode::Random(_) | TailMode::Subset(_)) {
+                continue;
+            }
             let img = e.dir.image_at(k, mode);
             e.out.images_evaluated += 1;
             let h = image_hash(&img);
@@ -117,7 +128,8 @@ pub fn evaluate_crash_images(e: &mut Exec) {
             if do_writer {
                 writer_step_count += 1;
             }
-            if let Err(msg) = evaluate_image(e, &img, &allowed, do_writer, k) {
+            let ordered = !matches!(mode, TailMode::Subset(_));
+            if let Err(msg) = evaluate_image(e, &img, &allowed, do_writer, k, ordered) {
                 let where_ = describe_boundary(&e.dir, k);
                 e.out.violate(
                     "C01",
@@ -134,7 +146,7 @@ pub fn evaluate_crash_images(e: &mut Exec) {
 /// (oracle, detail)
 type Fail = (String, String);
 
-pub fn evaluate_image(e: &mut Exec, img: &Image, allowed: &[usize], writer_step: bool, k: u64) -> Result<(), Fail> {
+pub fn evaluate_image(e: &mut Exec, img: &Image, allowed: &[usize], writer_step: bool, k: u64, orphan_clause: bool) -> Result<(), Fail> {
     // (1) + (3): opens and exposes exactly one allowed commit
     let m = e.open_and_match(img, allowed).map_err(|d| ("recovered_state".to_string(), d))?;
     // (2) checksums
@@ -199,8 +211,13 @@ pub fn evaluate_image(e: &mut Exec, img: &Image, allowed: &[usize], writer_step:
         docs.push(extra.clone());
         e.specs.insert(extra.uid, extra);
         compare(&dump, &docs, &e.fields).map_err(|x| ("recovered_plus_commit".to_string(), x))?;
-        check_exact_files(&d2, &index2, &BTreeSet::new())
-            .map_err(|x| ("C10_after_recovery".to_string(), x))?;
+        // A file whose creation survived while the `.managed.json` update registering it did not
+        // (possible only when un-synced namespace operations persist out of order) can never be
+        // collected: the exact-files clause is checked under the ordered outcomes only.
+        if orphan_clause {
+            check_exact_files(&d2, &index2, &BTreeSet::new())
+                .map_err(|x| ("C10_after_recovery".to_string(), x))?;
+        }
     }
     Ok(())
 }
